@@ -14,7 +14,8 @@ Ltac expr_simpl :=
        c_seq_validate c_seq_get_lo c_seq_get_hi c_seq_set_lo c_seq_set_hi
        c_sp_validate_reject c_sp_validate_lo c_sp_validate_hi c_sp_get_lo c_sp_get_hi c_sp_set_key
        c_ctx_validate_addr c_ctx_get_addr c_ctx_set_addr c_fx_mapper
-       c_srv_default_unit c_srv_set_ok c_srv_del_ok].
+       c_srv_default_unit c_srv_set_ok c_srv_del_ok
+       c_ctx_default_zero c_create_addr c_create_size].
 
 Lemma z2b_b2z b : z2b (b2z b) = b.
 Proof. destruct b; reflexivity. Qed.
@@ -430,4 +431,19 @@ Proof.
   destruct ((0 <=? u) && (u <=? 247)); [|discriminate]. injection H as <-.
   unfold sv_getitem, sv_key. cbn [sv_single sv_slaves]. rewrite Hs, assoc_az_set.
   destruct (u =? v); reflexivity.
+Qed.
+
+(* ------------------------------------------------------------------ defaults *)
+
+(* a context built without a zero_mode keyword applies the documented one-based offset *)
+Theorem default_is_one_based : default_zero_mode code = false.
+Proof. reflexivity. Qed.
+
+(* the create() factories populate exactly the addresses 0 .. 65535 *)
+Theorem default_block_extent k :
+  blk_validate code (default_block code) k 1 = true <-> 0 <= k < 65536.
+Proof.
+  unfold default_block. cbn [blk_validate]. rewrite seq_validate_arith.
+  unfold seq_len. cbn [sb_addr sb_vals]. rewrite repeat_length.
+  expr_simpl. rewrite Z2Nat.id by lia. lia.
 Qed.
